@@ -265,7 +265,7 @@ def call_name(c: ast.Call) -> str:
 
 
 # ----------------------------------------------------------------------------------------------------------------- path sets
-def stmt_paths(stmts: list[ast.stmt], limit: int = 4000, opaque_loops: bool = False) -> set[tuple]:
+def stmt_paths(stmts: list[ast.stmt], limit: int = 4000, opaque_loops: bool = False, split_bool: bool = False) -> set[tuple]:
     """All paths through a loop-free statement list as tuples of
         ("cond", text, truth) | ("do", text) | ("exit", kind, text)
     with kind in return / raise / continue / break / end.  `not` is folded into the truth value, constant tests are
@@ -280,6 +280,26 @@ def stmt_paths(stmts: list[ast.stmt], limit: int = 4000, opaque_loops: bool = Fa
             test, truth = test.operand, not truth
         return test, truth
 
+    def cases(test, truth):
+        """The ways `test` can come out as `truth`, each a list of atomic ("cond", text, truth) facts (short-circuit order)."""
+        test, truth = lit(test, truth)
+        if split_bool and isinstance(test, ast.BoolOp):
+            conj = isinstance(test.op, ast.And)
+            if conj == truth:
+                # all operands agree with `truth`
+                res = [[]]
+                for v in test.values:
+                    res = [a + b for a in res for b in cases(v, truth)]
+                return res
+            # the first operand that decides, the ones before it the other way
+            res = []
+            prefix = [[]]
+            for v in test.values:
+                res += [a + b for a in prefix for b in cases(v, truth)]
+                prefix = [a + b for a in prefix for b in cases(v, not truth)]
+            return res
+        return [[("cond", norm_stmt(test), truth)]]
+
     def run(seq, acc):
         if len(out) > limit:
             raise AnalysisError("too many paths")
@@ -293,6 +313,12 @@ def stmt_paths(stmts: list[ast.stmt], limit: int = 4000, opaque_loops: bool = Fa
                 rest = seq[i + 1:]
                 if isinstance(test, ast.Constant):
                     run((st.body if bool(test.value) == truth else st.orelse) + rest, acc)
+                    return
+                if split_bool:
+                    for c in cases(test, truth):
+                        run(st.body + rest, acc + c)
+                    for c in cases(test, not truth):
+                        run(st.orelse + rest, acc + c)
                     return
                 run(st.body + rest, acc + [("cond", norm_stmt(test), truth)])
                 run(st.orelse + rest, acc + [("cond", norm_stmt(test), not truth)])
